@@ -1414,4 +1414,89 @@ example :
     (∀ i ∈ allIdx [3], m i = 0 ∨ m i = 1) ∧ (flcOf 0 [3] [6] g m f [-1]).2.2.2 ≠ 0 ∧
       flcOf 0 [3] [6] g m f [-1] = (1 / 2, 1 / 4, 1 / 4, 2) := by decide +kernel
 
+/-- the returned score is exactly the smaller of start score and refined score (scores are minimised) -/
+theorem optimizeWrap_score_eq_min (x0 : List Int) (initial : Int) (resX : List Int) (resFun : Int) :
+    (optimizeWrap x0 initial resX resFun).2 = min initial resFun := by
+  unfold optimizeWrap; split <;> simp only <;> omega
+
+/-- the returned score is also no worse than the optimiser's own result -/
+theorem result_no_worse_than_refined (x0 : List Int) (initial : Int) (resX : List Int) (resFun : Int) :
+    (optimizeWrap x0 initial resX resFun).2 ≤ resFun := by
+  unfold optimizeWrap; split <;> simp only <;> omega
+
+/-- the returned pose is the start or the optimiser's pose, nothing else -/
+theorem optimizeWrap_pose_cases (x0 : List Int) (initial : Int) (resX : List Int) (resFun : Int) :
+    (optimizeWrap x0 initial resX resFun).1 = x0 ∨ (optimizeWrap x0 initial resX resFun).1 = resX := by
+  unfold optimizeWrap; split <;> simp
+
+/-- the accept rule is idempotent: re-applying it to its own output changes nothing -/
+theorem optimizeWrap_idem (x0 : List Int) (initial : Int) (resX : List Int) (resFun : Int) :
+    optimizeWrap x0 initial (optimizeWrap x0 initial resX resFun).1 (optimizeWrap x0 initial resX resFun).2 =
+      optimizeWrap x0 initial resX resFun := by
+  unfold optimizeWrap; split <;> simp only <;> split <;> rfl
+
+/-- any number of accept steps in a row: the final score is no worse than the start -/
+theorem optimizeWrap_chain_le_start (rs : List (List Int × Int)) :
+    ∀ (x0 : List Int) (initial : Int),
+      (rs.foldl (fun acc r => optimizeWrap acc.1 acc.2 r.1 r.2) (x0, initial)).2 ≤ initial := by
+  induction rs with
+  | nil => intro x0 initial; exact Int.le_refl _
+  | cons r rs ih =>
+    intro x0 initial
+    simp only [List.foldl_cons]
+    exact Int.le_trans (ih _ _) (result_no_worse_than_start x0 initial r.1 r.2)
+
+/-- any number of accept steps in a row: the final pose stays in bounds when all candidates do -/
+theorem optimizeWrap_chain_in_bounds (b : List Bound) (rs : List (List Int × Int))
+    (hr : ∀ r ∈ rs, inBounds b r.1 = true) :
+    ∀ (x0 : List Int) (initial : Int), inBounds b x0 = true →
+      inBounds b (rs.foldl (fun acc r => optimizeWrap acc.1 acc.2 r.1 r.2) (x0, initial)).1 = true := by
+  induction rs with
+  | nil => intro x0 initial h; exact h
+  | cons r rs ih =>
+    intro x0 initial h
+    simp only [List.foldl_cons]
+    exact ih (fun q hq => hr q (List.mem_cons_of_mem _ hq)) _ _
+      (result_in_bounds b x0 initial r.1 r.2 h (hr r List.mem_cons_self))
+
+example : inBounds [(-1, 1)] [0] = true ∧ ∀ r ∈ [(([1] : List Int), (3 : Int))], inBounds [(-1, 1)] r.1 = true := by
+  decide
+
+/-- a pose accepted by the bounds check has one entry per bound -/
+theorem inBounds_length : ∀ (b : List Bound) (v : List Int), inBounds b v = true → b.length = v.length
+  | [], [], _ => rfl
+  | [], _ :: _, h => by simp [inBounds] at h
+  | _ :: _, [], h => by simp [inBounds] at h
+  | _ :: bs, _ :: vs, h => by
+    simp only [inBounds, Bool.and_eq_true] at h
+    simp only [List.length_cons, inBounds_length bs vs h.2]
+
+example : inBounds [(-1, 1), (0, 5)] [0, 3] = true := by decide
+
+/-- evaluating the same pose twice in a row returns the same (fresh-object) value both times -/
+theorem c2dRun_same_pose_twice {α β : Type} (S : C2DStatic α β) (hasMask : Bool) (n m : Nat)
+    (hc : C2DContract S n m) (st : C2DState α) (hw : C2DWf S hasMask n m st) (x : List α) :
+    (c2dRun S st [x, x]).1 = [c2dPure S hasMask x, c2dPure S hasMask x] :=
+  c2dRun_values S hasMask n m hc [x, x] st hw
+
+/-- n·RMSD² is symmetric in its two point sets -/
+theorem sqDev_symm {α : Type} [CommRing α] : ∀ (a b : List (V3 α)), sqDev 0 a b = sqDev 0 b a
+  | [], [] => rfl
+  | [], _ :: _ => rfl
+  | _ :: _, [] => rfl
+  | p :: ps, q :: qs => by
+    simp only [sqDev, V3.sub, sqDev_symm ps qs]; ring
+
+/-- n·RMSD² is unchanged when both point sets are moved by a common translation -/
+theorem sqDev_translate {α : Type} [CommRing α] (t : V3 α) : ∀ (a b : List (V3 α)),
+    sqDev 0 (a.map (fun p => V3.add p t)) (b.map (fun p => V3.add p t)) = sqDev 0 a b
+  | [], [] => rfl
+  | [], _ :: _ => rfl
+  | _ :: _, [] => rfl
+  | p :: ps, q :: qs => by
+    have ih := sqDev_translate t ps qs
+    simp only [List.map_cons, sqDev]
+    rw [ih]
+    simp only [V3.sub, V3.add]; ring
+
 end Pm.C17
